@@ -9,6 +9,7 @@ import re
 import shutil
 import subprocess
 import sys
+import threading
 import time
 
 VERIF = os.path.dirname(os.path.dirname(os.path.abspath(__file__)))
@@ -288,6 +289,9 @@ def transient_failure(rc, out):
         re.search(r"Out of memory|Cannot allocate memory|Killed|Resource temporarily unavailable", out) is not None
 
 
+_RETRY_SLOTS = threading.Semaphore(2)
+
+
 def _coqc_shard(args):
     path, = args
     cmd = ["coqc", "-Q", COQ, "L4", "-w", "-notation-overridden", path]
@@ -295,8 +299,11 @@ def _coqc_shard(args):
     for attempt in range(3):
         if not transient_failure(rc, out):
             break
-        time.sleep(5 + 10 * attempt)
-        rc, out, dt2 = run(cmd, cwd=os.path.dirname(path), timeout=900)
+        # killed shards are repeated two at a time at most: the usual cause is memory pressure from
+        # all the shards (and other checks) running at once
+        with _RETRY_SLOTS:
+            time.sleep(5 + 10 * attempt)
+            rc, out, dt2 = run(cmd, cwd=os.path.dirname(path), timeout=900)
         dt += dt2
     return path, rc, out, dt
 
